@@ -211,7 +211,8 @@ class SimLoop(base_events.BaseEventLoop):
         w = self.world
         if not live or (only_spin and self._last_only_spin):
             q = self.on_quiescent
-            if q is not None:
+            # quiescent = nothing runnable and nothing due at the current instant
+            if q is not None and not (sched and sched[0]._when <= w.now):
                 q()
             # the hook may have made something runnable
             if not any(not h._cancelled and not _is_spinner(h) for h in ready):
